@@ -5,4 +5,5 @@ SPECIFICATION Spec
 INVARIANT ReadEqualsWritten
 INVARIANT TokensReadEqualWritten
 INVARIANT FieldTextsReadEqualWritten
+INVARIANT FieldsReadEqualWritten
 CHECK_DEADLOCK FALSE
